@@ -212,7 +212,21 @@ def other_sites():
     return CMPS[m.group(1)]
 
 
+CORE = 'include/AIToolbox/Utils/Core.hpp'
+
+
+def core_shape():
+    """The two tolerance comparisons the model's `ceS` / `ceG` transcribe (the constants come from tools/extract.py)."""
+    c = re.sub(r'\s+', ' ', X.strip_comments(X.read(CORE)))
+    if not re.search(r'inline bool checkEqualSmall\(const double a, const double b\) \{ return \( ?std::fabs\(a - b\) <= equalToleranceSmall ?\); \}', c):
+        raise X.ExtractError('checkEqualSmall(double,double): unknown shape')
+    if not re.search(r'inline bool checkEqualGeneral\(const double a, const double b\) \{ if \( ?checkEqualSmall\(a, ?b\) ?\) return true; '
+                     r'return \( ?std::fabs\(a - b\) <= std::min\(std::fabs\(a\), std::fabs\(b\)\) \* equalToleranceGeneral ?\); \}', c):
+        raise X.ExtractError('checkEqualGeneral(double,double): unknown shape')
+
+
 def gen_c09():
+    core_shape()
     gmf, gc, gln = greedy_shape()
     wolfG = other_sites()
     ef, efl = esrl_lookup()
